@@ -17,6 +17,11 @@ HPENC = {"h-pad", "p-pad", "h-noncanon", "p-noncanon", "extra-seg"}
 
 def cause(c):
     a = c["attrs"]
+    # algorithm SOURCE: the case is refused by a verifier that derives the algorithm from the resolved key and accepted by the
+    # deviating model (Jose.ldhdr.cfg, LdAlgFromHeader) in which the header of the detached JWS chooses it: a mechanism of
+    # its own, not the missing curve check of the jwx based consumers
+    if c["consumer"] == "ldproof" and c.get("ldhdr") == "accept" and c["expect"] == "reject" and a["alg"] not in ("none", "mac"):
+        return "verification-alg-chosen-by-jws-header-not-by-key"
     if a["nsig"] != 1:
         return "not-exactly-one-signature"
     if a["keyhdr"] in ("jwk-private", "jwk-private-own"):
@@ -122,6 +127,15 @@ def run(prop, tier, seed, replay=None):
     g = vlib.tlc("Jose", "Jose.gen.cfg", workers=4, timeout=600)
     if not g.ok:
         raise Inconclusive("TLC Jose.gen: %s %s" % (g.violation, g.error))
+    ld = vlib.tlc("Jose", "Jose.ldhdr.cfg", workers=4, timeout=600)
+    if not ld.ok:
+        raise Inconclusive("TLC Jose.ldhdr: %s %s" % (ld.violation, ld.error))
+    ldhdr = {(c["consumer"], c["fam"], c["variant"]): c for c in ld.printed}
+    ld_bad = sorted(k[1] + "/" + k[2] for k, c in ldhdr.items() if c["bad"] and not any(
+        x["bad"] for x in g.printed if (x["consumer"], x["fam"], x["variant"]) == k))
+    if not ld_bad or any(c["algsrc"] == "label" for c in g.printed if c["consumer"] == "ldproof"):
+        raise Inconclusive("vacuity: the header-chosen-algorithm dimension of Jose.tla predicts no wrongly accepted JSON-LD proof "
+                           "(or the descriptive model already takes the algorithm from the header)")
     if not quick:
         missing = [a for a in ACTIONS if not m.coverage.get(a)]
         if missing:
@@ -129,6 +143,7 @@ def run(prop, tier, seed, replay=None):
     presc = {(c["consumer"], c["fam"], c["variant"]): c["expect"] for c in m.printed}
     for c in g.printed:
         c["presc"] = presc[(c["consumer"], c["fam"], c["variant"])]
+        c["ldhdr"] = ldhdr[(c["consumer"], c["fam"], c["variant"])]["expect"]
     table = sorted(g.printed, key=lambda c: (c["consumer"], c["fam"], c["variant"]))
     reps = 2 if quick else 8     # every repetition uses fresh keys, fresh (randomised) signatures and a fresh process
     cases = []
@@ -160,7 +175,8 @@ def run(prop, tier, seed, replay=None):
                     "(consumer, family, variant) with variant # valid whose real verdict was obtained; sweep-* variants flip one used bit at %s "
                     "character position of the segment" % (len(set(c["variant"] for c in table)), reps, "every 11th" if quick else "every"),
                samples=st["samples"], table_cases=len(table), repetitions=reps, states=m.distinct, transitions=m.generated,
-               models=[dict(cfg="Jose.check.cfg", states=m.distinct, wall_s=round(m.wall, 1)), dict(cfg="Jose.gen.cfg", states=g.distinct, cases=len(table), wall_s=round(g.wall, 1))],
+               models=[dict(cfg="Jose.check.cfg", states=m.distinct, wall_s=round(m.wall, 1)), dict(cfg="Jose.gen.cfg", states=g.distinct, cases=len(table), wall_s=round(g.wall, 1)),
+                       dict(cfg="Jose.ldhdr.cfg", states=ld.distinct, wall_s=round(ld.wall, 1), wrongly_accepted_only_with_header_chosen_alg=ld_bad)],
                action_coverage=m.coverage, must_reject_cases=sum(1 for c in table if c["must_reject"]),
                model_predicted_violations=sum(1 for c in table if c["bad"]), verdicts_matching_prescriptive_model_only=st["repaired"],
                hostile_rejected=st["rejected_hostile"], consumer_panics=len(st["panics"]), valid_accepted=st["accepted_valid"], drift=len(st["drift"]),
